@@ -230,3 +230,80 @@ def m_index_range(kind):
                 out.append((q2, Ref(Cell(Seq([mir.copy_value(x) for x in s2.items[a:b]])))))
         return out
     return f
+
+
+# ----------------------------------------------------------------------------- Result / Try plumbing
+RESULT = mir.ENUM_VARIANTS["Result"]
+CONTROLFLOW = mir.ENUM_VARIANTS["ControlFlow"]
+
+
+def m_result_branch(it, p, callee, args):
+    """<Result<T,E> as Try>::branch: Ok(v) -> Continue(v), Err(e) -> Break(Err(e))"""
+    r = args[0]
+    pl = {}
+    if 0 in r.payloads:
+        pl[0] = r.payloads[0]
+    pl[1] = Tup([Enum(it.const_int(1, "isize"), {1: r.payloads.get(1, Tup([Opaque("err")]))}, RESULT, "Result")])
+    return Enum(r.discr, pl, CONTROLFLOW, "ControlFlow")
+
+
+def m_result_from_residual(it, p, callee, args):
+    r = args[0]
+    return Enum(it.const_int(1, "isize"), {1: r.payloads.get(1, Tup([Opaque("err")]))}, RESULT, "Result")
+
+
+# ----------------------------------------------------------------------------- str as a sequence of chars
+def str_value(chars):
+    """&str modelled as Ref to a Seq of char Ints (unicode scalar values); byte length is derived"""
+    return Ref(Cell(Seq(chars)))
+
+
+def m_str_is_empty(it, p, callee, args):
+    return Bool(z3.BoolVal(len(deref(args[0]).items) == 0))
+
+
+def m_str_chars(it, p, callee, args):
+    return Tup([args[0], it.const_int(0, "usize")], "Chars")
+
+
+def m_identity(it, p, callee, args):
+    return args[0]
+
+
+def m_chars_count(it, p, callee, args):
+    ch = args[0]
+    n = len(deref(ch.f[0]).items)
+    pos = z3.simplify(ch.f[1].t).as_long()
+    return it.const_int(n - pos, "usize")
+
+
+def m_chars_next(it, p, callee, args):
+    ch = deref(args[0])
+    seq = deref(ch.f[0])
+    pos = z3.simplify(ch.f[1].t).as_long()
+    if pos >= len(seq.items):
+        return none(it)
+    ch.f[1] = it.const_int(pos + 1, "usize")
+    return some(it, seq.items[pos])
+
+
+def utf8_len(be, c):
+    return z3.If(z3.ULT(c, 0x80), z3.BitVecVal(1, 64), z3.If(z3.ULT(c, 0x800), z3.BitVecVal(2, 64),
+                 z3.If(z3.ULT(c, 0x10000), z3.BitVecVal(3, 64), z3.BitVecVal(4, 64))))
+
+
+def m_str_len(it, p, callee, args):
+    seq = deref(args[0])
+    t = z3.BitVecVal(0, 64)
+    for c in seq.items:
+        t = t + utf8_len(it.be, c.t)
+    return Int(t, 64, False)
+
+
+def m_to_string(it, p, callee, args):
+    return Tup([args[0]], "String")      # owned copy of the same characters
+
+
+def m_string_deref(it, p, callee, args):
+    s = deref(args[0])
+    return s.f[0] if isinstance(s, Tup) and s.name == "String" else args[0]
